@@ -126,6 +126,7 @@ type scheduler struct {
 	timerSeq int
 	costFn   func(label string, option int) int
 	quiet    bool // Quiet(true): decisions are taken by default and offer no alternatives to the explorer
+	strict   bool // StrictCosts(true): every non-default alternative costs at least 1 (delay bounding)
 }
 
 var S = &scheduler{}
@@ -473,6 +474,8 @@ func (s *scheduler) schedule(t *task) {
 			costs[i] = alts[i].cost
 			if s.quiet && i != 0 {
 				costs[i] = quietCost
+			} else if s.strict && i != 0 && costs[i] == 0 {
+				costs[i] = 1
 			}
 		}
 		a := alts[idx]
